@@ -144,7 +144,7 @@ PROPS = {
         "technique": T_R2,
     },
     "C11": {
-        "clauses": [guards("root"), r6.check_cfg_taint, r3.check_division_sites, r5check.check_roots],
+        "clauses": [guards("root"), r6.check_cfg_taint, r3.check_division_sites, r5check.check_roots, r10.check_fixpoint_invariant],
         "not_decided": "Newton convergence (assumed: fixpoint reaches the floor root from any guess), the u64 fast path, float guesses",
         "level_text": "Decides: n > 0 (zeroth root) and the imaginary-root assertions (negative with even degree, sqrt of a negative) are mandatory in release builds, "
         "test the right operands and dominate every return; the std/no_std difference in nth_root/sqrt/cbrt is confined to the initial guess passed to "
